@@ -63,6 +63,9 @@ def shards(tier, seed):
             k += 1
     out.append({"name": "corpus", "threads": 1, "timeout": 600,
                 "params": {"kind": "corpus"}})
+    out.append({"name": "threaded", "threads": 1, "timeout": 900,
+                "params": {"kind": "threaded", "seed": seed, "nthreads": 4,
+                           "per_thread": 40 if tier == "quick" else 400}})
     if tier == "thorough":
         out.append({"name": "repo-tests", "threads": 4, "timeout": 1800,
                     "params": {"kind": "repo-tests"}})
@@ -136,6 +139,8 @@ def run_shard(params, rec):
     kind = params["kind"]
     if kind == "repo-tests":
         return planwork.run_repo_tests(ID, rec)
+    if kind == "threaded":
+        return planwork.run_threaded_shard(ID, params, rec)
     if kind == "plans":
         def extra(rec, cfg, rng, i):
             nf_pair(rec, cfg)
